@@ -166,9 +166,9 @@ def concrete_row(seed, fam, base, order, token, text):
                 elif k == "f" and sz == 4:
                     raw[o:o + 4] = struct.pack("<I", _F4_SPECIAL[sel % len(_F4_SPECIAL)])
                 elif k in "iu":
-                    raw[o:o + sz] = [b"\xff" * sz, b"\x00" * (sz - 1) + b"\x80", b"\xff" * (sz - 1) + b"\x7f"][sel % 3]
+                    raw[o:o + sz] = [b"\xff" * sz, b"\x00" * (sz - 1) + b"\x80", b"\xff" * (sz - 1) + b"\x7f"][(sel // 3) % 3]
                 elif k == "S":
-                    raw[o:o + sz] = [b"\x00" * sz, b"a" + b"\x00" * (sz - 1), b"\x00" * (sz - 1) + b"z"][sel % 3]
+                    raw[o:o + sz] = [b"\x00" * sz, b"a" + b"\x00" * (sz - 1), b"\x00" * (sz - 1) + b"z"][(sel // 3) % 3]
         a = np.frombuffer(bytes(raw), dtype=le).copy()
     if order == "lt" or (order == "na" and np.little_endian):
         return a
@@ -176,9 +176,14 @@ def concrete_row(seed, fam, base, order, token, text):
 
 
 def chunk_array(seed, fam, chunk, text):
+    """the array a chunk stands for, *in the chunk's byte order* (np.concatenate would hand back a
+    native-order array: the rows are joined as bytes)"""
     base, order = chunk["descr"]
+    dt = dtype_of(fam, base, order)
     rows = [concrete_row(seed, fam, base, order, t, text) for t in chunk["rows"]]
-    return np.concatenate(rows) if rows else np.zeros(0, dtype=dtype_of(fam, base, order))
+    if not rows:
+        return np.zeros(0, dtype=dt)
+    return np.frombuffer(b"".join(r.tobytes() for r in rows), dtype=dt).copy()
 
 
 class TokenTable:
